@@ -46,6 +46,7 @@ def deps_of(e):
             if "Stream" in (n.get("t") or "") and "nifly::Ni" in (n.get("ct") or n.get("t") or ""):
                 continue  # the stream object's configuration (version, mode) is fixed during a Get/Put
             d.add(("v", n["id"]))
+            d.add(("n", n["name"]))
         elif k == "Ref" and n.get("rk") in ("global", "staticlocal"):
             d.add(("g", n.get("qn")))
         elif k in ("Member", "DepMember") and n.get("mk", "field") == "field":
@@ -138,6 +139,46 @@ def implied(e, pol):
     return out
 
 
+def contradicts(st, new_facts):
+    """a flag local known true/false cannot take the other value (only bare-identifier flag facts are used, so an
+    unrelated imprecision elsewhere cannot make reachable code look dead)"""
+    for f in new_facts:
+        if f[0] == "G" and f[1].isidentifier():
+            for g in st:
+                if g[0] == "G" and g[1] == f[1] and g[2] != f[2]:
+                    return True
+    return False
+
+
+def flag_facts(st):
+    if st is BOT:
+        return frozenset()
+    return frozenset((f[1], f[2]) for f in st if f[0] == "G" and f[1].isidentifier() and len(f[3]) <= 2)
+
+
+def merge_partitions(states, cap=8):
+    if cap == 0:
+        out = BOT
+        for s0 in states:
+            out = join(out, s0)
+        return [out] if out is not BOT else []
+    groups = {}
+    order = []
+    for s0 in states:
+        k = flag_facts(s0)
+        if k in groups:
+            groups[k] = join(groups[k], s0)
+        else:
+            groups[k] = s0
+            order.append(k)
+    if len(order) > cap:
+        out = BOT
+        for k in order:
+            out = join(out, groups[k])
+        return [out]
+    return [groups[k] for k in order]
+
+
 def kill(st, dep):
     if st is BOT:
         return st
@@ -178,6 +219,7 @@ class Flow:
         self.fn = fn
         self.mode = mode
         self.muted = 0
+        self.partition = True
         self.exits = []  # (kind, node, state) for every return / fall-off-end, final pass only
 
     # ------------------------------------------------------------ hooks
@@ -194,6 +236,10 @@ class Flow:
 
     def on_exit(self, kind, node, st):
         pass
+
+    def may_remove(self, call, argi, arg):
+        """may the callee remove elements from a container reachable from by-reference argument argi?"""
+        return self.F.may_remove(call, argi)
 
     def const_cond(self, e):
         """True/False if the condition is decided by configuration (stream mode, folded constant), else None"""
@@ -251,6 +297,9 @@ class Flow:
             d = lvalue_dep(e["l"])
             if d:
                 st = kill(st, d)
+            if st is not BOT and e["op"] == "=" and is_node(e["l"]) and e["l"]["k"] == "Ref" and \
+                    e["l"].get("rk") == "local" and is_node(e["r"]) and e["r"]["k"] == "Lit" and e["r"].get("lk") == "bool":
+                st = st | {("G", e["l"]["name"], bool(e["r"]["val"]), frozenset({("v", e["l"]["id"]), ("n", e["l"]["name"])}))}
             return self._visit(e, st)
         if k == "Unary" and e["op"] in ("++", "--"):
             st = self.expr(e["e"], st)
@@ -270,19 +319,27 @@ class Flow:
                 st = self.expr(a, st)
             if st is BOT:
                 return st
+            st = self._visit(e, st)  # the state in which the call executes; its effects on by-reference arguments follow
+            if st is BOT:
+                return st
             for i in e.get("refargs", []):
                 if i < len(args) and is_node(args[i]):
                     a = args[i]
                     if a["k"] == "Unary" and a["op"] == "&":
                         a = a["e"]
+                    elif (a.get("ct") or a.get("t") or "").rstrip().endswith("*"):
+                        continue  # pointer passed by value: the pointer variable itself cannot change
                     d = lvalue_dep(a)
                     if d and d[0] == "v":
                         st = kill(st, d)
+                    rv = _root_var(a)
+                    if rv is not None and self.may_remove(e, i, a):
+                        st = kill(st, ("cv", rv))
             if k == "OpCall" and e.get("op") in ("=", "+=", "-=", "++", "--", "<<=", ">>=", "|=", "&=") and args:
                 d = lvalue_dep(args[0])
                 if d:
                     st = kill(st, d)
-            return self._visit(e, st)
+            return st
         for c in children(e):
             st = self.expr(c, st)
         return self._visit(e, st)
@@ -323,7 +380,20 @@ class Flow:
         st2 = self.expr(e, st)
         if st2 is BOT:
             return BOT, BOT
-        return st2 | frozenset(implied(e, True)), st2 | frozenset(implied(e, False))
+        t, f = set(implied(e, True)), set(implied(e, False))
+        if k == "Ref":
+            for fact in st2:
+                if fact[0] == "F" and fact[1] == e["name"]:
+                    dn = KEYNODE.get(fact[2])
+                    if is_node(dn):
+                        t |= implied(dn, True)
+                        f |= implied(dn, False)
+        # a branch contradicting a known fact is unreachable
+        t |= history_facts(t)
+        f |= history_facts(f)
+        tt = BOT if contradicts(st2, t) else st2 | frozenset(t)
+        ff = BOT if contradicts(st2, f) else st2 | frozenset(f)
+        return tt, ff
 
     def expr_plain(self, e, st):
         # evaluate for effects without branching on its own constness (avoid infinite recursion)
@@ -337,31 +407,54 @@ class Flow:
     # ------------------------------------------------------------ statements
     def stmt(self, s, st):
         """-> (normal, break, continue, return) out-states"""
-        if st is BOT or s is None:
-            return st, BOT, BOT, BOT
-        if not is_node(s):
-            return st, BOT, BOT, BOT
-        r0 = self.on_stmt(s, st)
-        st = st if r0 is None else r0
+        outs, b, c, r = self.stmt_multi(s, st)
+        n = BOT
+        for o in outs:
+            n = join(n, o)
+        return n, b, c, r
+
+    def stmt_multi(self, s, st):
+        """-> ([normal out-states, one per trace partition], break, continue, return).
+        An `if` whose branches leave different values in a flag local keeps both out-states apart (trace
+        partitioning, DESIGN Appendix A); partitions flow through nested compounds/ifs and are joined at loop, switch
+        and function boundaries."""
+        if st is BOT or s is None or not is_node(s):
+            return [st], BOT, BOT, BOT
         k = s["k"]
         if k == "Compound":
+            r0 = self.on_stmt(s, st)
+            st = st if r0 is None else r0
             b = c = r = BOT
+            states = [st]
             for x in s["body"]:
-                n, b2, c2, r2 = self.stmt(x, st)
-                b, c, r = join(b, b2), join(c, c2), join(r, r2)
-                st = n
-                if st is BOT:
+                nxt = []
+                for s0 in states:
+                    outs, b2, c2, r2 = self.stmt_multi(x, s0)
+                    b, c, r = join(b, b2), join(c, c2), join(r, r2)
+                    nxt.extend(o for o in outs if o is not BOT)
+                states = merge_partitions(nxt, 8 if self.partition else 0)
+                if not states:
                     break
-            return st, b, c, r
+            return (states or [BOT]), b, c, r
         if k == "If":
+            r0 = self.on_stmt(s, st)
+            st = st if r0 is None else r0
             if s.get("init") is not None:
                 st, _, _, _ = self.stmt(s["init"], st)
             if s.get("var") is not None:
                 st = self.decl(s["var"], st)
             t, f = self.cond(s["cond"], st)
-            n1, b1, c1, r1 = self.stmt(s.get("then"), t)
-            n2, b2, c2, r2 = self.stmt(s.get("else"), f) if s.get("else") is not None else (f, BOT, BOT, BOT)
-            return join(n1, n2), join(b1, b2), join(c1, c2), join(r1, r2)
+            n1, b1, c1, r1 = self.stmt_multi(s.get("then"), t)
+            n2, b2, c2, r2 = self.stmt_multi(s.get("else"), f) if s.get("else") is not None else ([f], BOT, BOT, BOT)
+            outs = merge_partitions([o for o in n1 + n2 if o is not BOT], 8 if self.partition else 0)
+            return (outs or [BOT]), join(b1, b2), join(c1, c2), join(r1, r2)
+        n, b, c, r = self.stmt1(s, st)
+        return [n], b, c, r
+
+    def stmt1(self, s, st):
+        r0 = self.on_stmt(s, st)
+        st = st if r0 is None else r0
+        k = s["k"]
         if k in ("For", "While", "Do", "RangeFor"):
             return self.loop(s, st)
         if k == "Switch":
@@ -411,7 +504,14 @@ class Flow:
             st = self.expr(v["init"], st)
         if st is BOT:
             return st
-        st = kill(st, ("v", v["id"]))
+        st = kill(kill(st, ("v", v["id"])), ("n", v["name"]))
+        i = v.get("init")
+        if is_node(i) and (v.get("ct") or v.get("t")) in ("bool", "const bool"):
+            me = frozenset({("v", v["id"]), ("n", v["name"])})
+            if i["k"] == "Lit" and i.get("lk") == "bool":
+                st = st | {("G", v["name"], bool(i["val"]), me)}
+            else:
+                st = st | {("F", v["name"], _reg("def:" + show(i), i), me | deps_of(i))}
         r = self.on_decl(v, st)
         return st if r is None else r
 
@@ -431,7 +531,7 @@ class Flow:
                 t, f = self.cond(s["cond"], join(n, c))
                 return t, join(f, b), r
             if k == "RangeFor":
-                h2 = kill(head, ("v", s["var"]["id"]))
+                h2 = kill(kill(head, ("v", s["var"]["id"])), ("n", s["var"]["name"]))
                 r0 = self.on_decl(s["var"], h2)
                 h2 = h2 if r0 is None else r0
                 n, b, c, r = self.stmt(s["body"], h2)
@@ -554,6 +654,124 @@ def guards(st):
     return sorted((f[1], f[2]) for f in st if f[0] == "G")
 
 
+INSERTERS = {"insert", "push_back", "emplace_back", "emplace", "push_front"}
+REMOVERS = {"clear", "erase", "pop_back", "resize", "assign", "swap"}
+
+
+def _root_var(e):
+    while is_node(e):
+        k = e["k"]
+        if k == "Ref":
+            return e.get("id") if e.get("rk") in ("local", "param") else None
+        if k in ("Member", "DepMember"):
+            e = e.get("base")
+        elif k == "Subscript":
+            e = e["base"]
+        elif k in ("Cast",):
+            e = e["e"]
+        elif k == "Unary" and e["op"] in ("*", "&"):
+            e = e["e"]
+        else:
+            return None
+    return None
+
+
+def set_facts(n, st):
+    """('I', container, element, deps) must-facts for std container insertions; removed by clear/erase/…
+    deps = variables of the element expression + ('cv', root variable of the container): the latter is only killed
+    when the container is handed to code that may remove elements (Flow.may_remove)"""
+    if st is BOT or n["k"] != "Call" or not n.get("ext") or not is_node(n.get("recv")):
+        return st
+    sh = n.get("short")
+    if sh in INSERTERS and n.get("args"):
+        v = show(n["recv"])
+        x = show(n["args"][-1])
+        d = set(deps_of(n["args"][-1]))
+        rv = _root_var(n["recv"])
+        if rv is not None:
+            d.add(("cv", rv))
+        return st | {("I", v, x, frozenset(d))}
+    if sh in REMOVERS:
+        v = show(n["recv"])
+        return frozenset(f for f in st if not (f[0] == "I" and f[1] == v))
+    return st
+
+
+def _count_zero(e, truth):
+    """does comparison e having truth value `truth` imply  <lhs-or-rhs call count(x)> == 0 ?  -> (V, x) or None"""
+    if not (is_node(e) and e["k"] == "Binary" and e["op"] in CMP):
+        return None
+    for a, b, op in ((e["l"], e["r"], e["op"]), (e["r"], e["l"], {"<": ">", ">": "<", "<=": ">=", ">=": "<="}.get(e["op"], e["op"]))):
+        if is_node(a) and a["k"] == "Call" and a.get("short") == "count" and is_node(a.get("recv")) and a.get("args") \
+                and is_zero_lit(b):
+            zero = (op == "==" and truth) or (op == "!=" and not truth) or (op == ">" and not truth) or (op == "<=" and truth)
+            if zero:
+                return show(a["recv"]), show(a["args"][0]), a["args"][0]
+    return None
+
+
+def _notin_of_fact(f):
+    """(container, element, element-node) if guard fact f proves `element not in container` at its test"""
+    if f[0] != "G":
+        return None
+    node = KEYNODE.get(f[1])
+    if node is None:
+        return None
+    if isinstance(node, tuple):
+        e, p = node[1], node[2]
+        r = _count_zero(e, f[2] == p)
+        if r:
+            return r
+        return None
+    if not is_node(node):
+        return None
+    k = node["k"]
+    if k == "Call" and node.get("short") == "count" and is_node(node.get("recv")) and node.get("args") and not f[2]:
+        return show(node["recv"]), show(node["args"][0]), node["args"][0]
+    if k == "Call" and (node.get("short") or "").lower() == "contains" and not f[2]:
+        a = node.get("args", [])
+        if len(a) == 2 and node.get("recv") is None:
+            return show(a[0]), show(a[1]), a[1]
+        if len(a) == 1 and is_node(node.get("recv")):
+            return show(node["recv"]), show(a[0]), a[0]
+    if k == "Member" and node.get("name") == "second" and f[2]:
+        b = node.get("base")
+        if is_node(b) and b["k"] == "Call" and b.get("short") in ("insert", "emplace") and is_node(b.get("recv")) and b.get("args"):
+            return show(b["recv"]), show(b["args"][-1]), b["args"][-1]
+    if k == "OpCall" and node.get("op") in ("==", "!=") and len(node.get("args", [])) == 2:
+        a, b = node["args"]
+        for x, y in ((a, b), (b, a)):
+            if is_node(x) and x["k"] == "Call" and x.get("short") == "find" and is_node(y) and y["k"] == "Call" \
+                    and y.get("short") in ("end", "cend") and is_node(x.get("recv")) and x.get("args"):
+                if (node["op"] == "==") == f[2]:
+                    return show(x["recv"]), show(x["args"][0]), x["args"][0]
+    return None
+
+
+def history_facts(new_facts):
+    """('H', container, element, deps-of-element): `element` was tested and found absent from `container` on this
+    path.  A historical event: later insertions do not invalidate it, only re-assignment of the element's variables."""
+    out = set()
+    for f in new_facts:
+        r = _notin_of_fact(f)
+        if r:
+            out.add(("H", r[0], r[1], deps_of(r[2])))
+    return out
+
+
+def notin_guards(st):
+    """(container, element) pairs tested absent on every path to here"""
+    if st is BOT:
+        return set()
+    return set((f[1], f[2]) for f in st if f[0] == "H")
+
+
+def in_facts(st):
+    if st is BOT:
+        return set()
+    return set((f[1], f[2]) for f in st if f[0] == "I")
+
+
 class Collect(Flow):
     """records the state at every node for which want(node) holds"""
 
@@ -580,6 +798,14 @@ class Collect(Flow):
         return None
 
     def on_node(self, n, st):
+        st = set_facts(n, st)
         if not self.muted and self.want(n):
             self.at.append((n, st))
         return st
+
+    def by_node(self):
+        """node -> list of states (one per trace partition that reaches it)"""
+        out = {}
+        for n, st in self.at:
+            out.setdefault(id(n), (n, []))[1].append(st)
+        return list(out.values())
